@@ -2,6 +2,7 @@
 package c13
 
 import (
+	"github.com/theparanoids/ysshra/attestation/yubiattest"
 	"bytes"
 	"crypto/rand"
 	"crypto/x509"
@@ -119,6 +120,13 @@ func x509Pool() []*x509.Certificate {
 		}
 		x509Certs = append(x509Certs, c)
 	}
+	// a certificate as YubiKey firmware older than 4.3.3 issued it: the RSA key's algorithm identifier
+	// omits the NULL parameter (crypto/x509 refuses it, the repository's own parser reads it)
+	if nl, ok := vh.StripKeyNULL(x509Certs[0].Raw); ok {
+		if lc, err := yubiattest.ParseCertificate(nl); err == nil && bytes.Equal(lc.Raw, nl) {
+			x509Certs = append(x509Certs, lc)
+		}
+	}
 	return x509Certs
 }
 
@@ -154,6 +162,9 @@ func genOp(t *rapid.T, label string) COp {
 	keyName := func() string { return rapid.SampledFrom(vh.SSHKeyNames).Draw(t, label+"Key") }
 	genKeys := func() []ResKey {
 		n := rapid.IntRange(0, 4).Draw(t, label+"NK")
+		if rapid.IntRange(0, 30).Draw(t, label+"ManyK") == 13 {
+			n = rapid.SampledFrom([]int{32, 100, 300}).Draw(t, label+"NKMany") // long listings
+		}
 		var ks []ResKey
 		for i := 0; i < n; i++ {
 			ks = append(ks, ResKey{Key: rapid.SampledFrom(vh.SSHKeyNames).Draw(t, fmt.Sprintf("%sRK%d", label, i)), Cert: rapid.Bool().Draw(t, fmt.Sprintf("%sRC%d", label, i)), Comment: genText(t, fmt.Sprintf("%sRM%d", label, i))})
@@ -188,9 +199,15 @@ func genOp(t *rapid.T, label string) COp {
 		}
 	case "listslots":
 		o.Slots = rapid.SliceOfN(rapid.SampledFrom([]string{"9a", "9c", "9d", "9e", "f9", "82", "95", "9a:", "slot-with-longer-name"}), 0, 5).Draw(t, label+"S")
+		if rapid.IntRange(0, 20).Draw(t, label+"ManyS") == 9 {
+			o.Slots = nil
+			for k := 0; k < rapid.SampledFrom([]int{24, 64, 300}).Draw(t, label+"NS"); k++ {
+				o.Slots = append(o.Slots, fmt.Sprintf("%02x", k%256))
+			}
+		}
 	case "readslot", "attestslot":
 		o.Slot = rapid.SampledFrom([]string{"9a", "9e", "f9", "", "82", "9a 9c", "日本", "-s", "a\x00b", strings.Repeat("s", 100)}).Draw(t, label+"S")
-		o.CertIdx = rapid.IntRange(0, 4).Draw(t, label+"CI")
+		o.CertIdx = rapid.IntRange(0, 5).Draw(t, label+"CI")
 	case "wait":
 		o.Code = rapid.IntRange(0, 255).Draw(t, label+"W")
 	case "forward":
@@ -661,7 +678,7 @@ func parseSmartcard(raw []byte) (id string, pin, rest []byte, ok bool) {
 	return id, b[4 : 4+l], b[4+l:], true
 }
 
-const ruleSeq = "sequences of 1..10 operations through NewClientFromConn (socket pair) or NewClient(address) (unix-socket listener) <-> ServeAgent(recording agent): list, sign-with-flags (flags 0/2/4, data 0..64 KiB), add with lifetime / confirm constraints for RSA, ECDSA, Ed25519 and DSA keys with and without certificate, remove, remove-all, lock / unlock with arbitrary passphrase bytes, signers, add-hardware-certificate (new format through the client, legacy [31][blob] through Forward), list / read / attest slot with slot names and certificates up to ~8 KiB, wait with any code, raw forward of uninterpreted codes with bodies and replies up to 64 KiB, add / remove smartcard, extension; the served agent returns generated results or generated error texts (a quarter of the operations fail, half of those handing a result value back next to the error). Oracle: recorded arguments = sent arguments, caller result = scripted result byte-for-byte, served error => caller error (text equal where the protocol carries text), exactly one call reaches the served agent per operation; every signer returned by signers signs once and that reaches the served agent as a sign request for exactly the listed identity; key objects the served agent was handed earlier stay byte-identical when re-encoded after later operations. Excluded by construction (known findings): error text 'SUCCESS' for add-hardware-certificate / wait, empty error text for the slot listing. Non-trivial: >= 1 extended operation and >= 1 failing operation."
+const ruleSeq = "sequences of 1..10 operations through NewClientFromConn (socket pair) or NewClient(address) (unix-socket listener) <-> ServeAgent(recording agent): list, sign-with-flags (flags 0/2/4, data 0..64 KiB), add with lifetime / confirm constraints for RSA, ECDSA, Ed25519 and DSA keys with and without certificate, remove, remove-all, lock / unlock with arbitrary passphrase bytes, signers, add-hardware-certificate (new format through the client, legacy [31][blob] through Forward), list / read / attest slot with slot names and certificates up to ~8 KiB (one of the six in the encoding of YubiKey firmware before 4.3.3: RSA key identifier without NULL, which crypto/x509 refuses and the repository's parser reads), wait with any code, raw forward of uninterpreted codes with bodies and replies up to 64 KiB, add / remove smartcard, extension; the served agent returns generated results or generated error texts (a quarter of the operations fail, half of those handing a result value back next to the error). Oracle: recorded arguments = sent arguments, caller result = scripted result byte-for-byte, served error => caller error (text equal where the protocol carries text), exactly one call reaches the served agent per operation; every signer returned by signers signs once and that reaches the served agent as a sign request for exactly the listed identity; key objects the served agent was handed earlier stay byte-identical when re-encoded after later operations. Excluded by construction (known findings): error text 'SUCCESS' for add-hardware-certificate / wait, empty error text for the slot listing. Non-trivial: >= 1 extended operation and >= 1 failing operation."
 
 func TestC13Client(t *testing.T) {
 	vh.Run(t, vh.Spec[SeqCase]{Property: "C13", Name: "TestC13Client", Rule: ruleSeq, Gen: genSeq, Exec: execSeq, Journal: true})
@@ -785,7 +802,7 @@ func genTool(t *rapid.T) ToolCase {
 		}
 	} else {
 		c.Slot = rapid.SampledFrom([]string{"9a", "9e", "f9", "82", "", "9a 9c", "-a", "日本"}).Draw(t, "slot")
-		c.CertIdx = rapid.IntRange(0, 4).Draw(t, "cert")
+		c.CertIdx = rapid.IntRange(0, 5).Draw(t, "cert")
 		c.OutKind = rapid.SampledFrom([]string{"pem", "pem", "pem", "empty", "garbage", "twopem", "pem-trailing-ws"}).Draw(t, "outKind")
 	}
 	return c
@@ -952,7 +969,7 @@ func execTool(c ToolCase) (vh.Outcome, error) {
 	return out, nil
 }
 
-const ruleTool = "the real NewServer(remote=false) with a fake yubico-piv-tool on PATH whose stdout and exit status come from the Case: status output of 0..8 lines (well-formed 'Slot xx:' lines, other status lines, 'Slot' lines of length 4..6, 'Slot' not followed by a space, non-ASCII, arbitrary bytes), exit status 0 / 1 / 2 / 127; read / attest with slot names (passed verbatim as arguments) and outputs {PEM certificate up to ~8 KiB, with trailing whitespace, two blocks, empty, garbage}; and remote=true. Oracle: in order, bytes 5..7 of every line starting with 'Slot ' and at least 7 bytes long; lines not starting with 'Slot' contribute nothing; shorter or space-less 'Slot' lines must not crash and may contribute or not; non-zero exit => error; read / attest return the certificate byte-identically; remote mode => error for all three without running the tool; every call is repeated through a client connected to the server and must fail / succeed there exactly as on the server itself. Non-trivial: remote mode, non-zero exit, at least one expected slot, or a certificate result."
+const ruleTool = "the real NewServer(remote=false) with a fake yubico-piv-tool on PATH whose stdout and exit status come from the Case: status output of 0..8 lines (well-formed 'Slot xx:' lines, other status lines, 'Slot' lines of length 4..6, 'Slot' not followed by a space, non-ASCII, arbitrary bytes), exit status 0 / 1 / 2 / 127; read / attest with slot names (passed verbatim as arguments) and outputs {PEM certificate up to ~8 KiB (incl. the old-firmware encoding), with trailing whitespace, two blocks, empty, garbage}; and remote=true. Oracle: in order, bytes 5..7 of every line starting with 'Slot ' and at least 7 bytes long; lines not starting with 'Slot' contribute nothing; shorter or space-less 'Slot' lines must not crash and may contribute or not; non-zero exit => error; read / attest return the certificate byte-identically; remote mode => error for all three without running the tool; every call is repeated through a client connected to the server and must fail / succeed there exactly as on the server itself. Non-trivial: remote mode, non-zero exit, at least one expected slot, or a certificate result."
 
 func TestC13Tool(t *testing.T) {
 	vh.Run(t, vh.Spec[ToolCase]{Property: "C13", Name: "TestC13Tool", Rule: ruleTool, Gen: genTool, Exec: execTool})
